@@ -57,7 +57,7 @@ SRC_KERNELS = {
     "C02": ["TheFittest_replace", "TheFittest_update", "termination_check", "get_remains_calls", "EA_get_fitness", "DE_greedy_replacement", "jDE_greedy_replacement", "TheFittest_get", "EA_from_population_g_to_fitness", "DE_from_population_g_to_fitness", "SHAGA_from_population_g_to_fitness", "GA_from_population_g_to_fitness"],
     "C03": ["TheFittest_replace", "TheFittest_update", "termination_check", "get_remains_calls", "EA_fit", "EA_get_fitness", "EA_get_aim"],
     "C05": ["TheFittest_replace", "TheFittest_update", "termination_check", "get_remains_calls", "EA_get_fitness"],
-    "C10": ["SG_bit_to_int", "GC_gray_to_bit", "GC_bit_to_gray", "SG_decode", "GC_decode"],     # vectorised kernels: harness/extract/np2lean.py
+    "C10": ["SG_bit_to_int", "GC_gray_to_bit", "GC_bit_to_gray", "SG_decode", "GC_decode", "SG_int_to_bit"],     # vectorised kernels: harness/extract/np2lean.py
     "C06": ["flip_mutation", "binomialGA", "one_point_crossover", "two_point_crossover", "uniform_crossover",
             "uniform_proportional_crossover", "uniform_rank_crossover", "empty_crossover", "GA_get_new_individ_g", "SHAGA_get_new_individ_g",
             "random_sample", "check_for_value", "sattolo_shuffle", "random_weighted_sample", "binary_search_interval"],
